@@ -110,6 +110,36 @@ theorem leave_ending (r : Realm) (k : SessKey) (mode : LeaveMode) (hk : r.isClie
     have := (List.mem_filter.mp h).2
     simp [hsk] at this
 
+/-- who is attached after the departure of `k` -/
+theorem leave_isClient {r : Realm} (hi : RealmInv r) (k : SessKey) (mode : LeaveMode) (hk : r.isClient k)
+    (hnb : ∀ x ∈ r.retries, x.callee ≠ k) (k' : SessKey) :
+    (r.leave k mode).isClient k' ↔ r.isClient k' ∧ k' ≠ k := by
+  obtain ⟨_, _, h3, h4⟩ := leave_inv hi k mode hnb
+  obtain ⟨_, g4⟩ := h3 hk
+  obtain ⟨c, hc, hck⟩ := hk
+  cases hf : r.clients.find? (fun c => c.key == k) with
+  | none =>
+    have := List.find?_eq_none.mp hf c hc
+    simp [hck] at this
+  | some s =>
+    have hsk := (find?_key hf).2
+    constructor
+    · intro h
+      refine ⟨h4 k' h, fun e => g4 ?_⟩
+      rw [e] at h
+      exact h
+    · rintro ⟨⟨c', hc', rfl⟩, hne⟩
+      rw [leave_some mode hf]
+      refine (isClient_leaveClose _ s c'.key).mpr ⟨?_, hsk ▸ hne⟩
+      obtain ⟨q1, _⟩ := good_leaveSend hi ⟨c, hc, hck⟩ mode
+      obtain ⟨q2, _⟩ := good_takeTestaments q1.1 k
+      obtain ⟨q3, _, _⟩ := good_leaveRemove q2.1 k mode.isShutdown
+      have q13 := q1.trans (q2.trans q3)
+      have hcl : (leaveRemove ((leaveSend r k mode).takeTestaments k).2 k mode.isShutdown).isClient c'.key :=
+        (q13.isClient c'.key).mpr ⟨c', hc', rfl⟩
+      unfold leaveAnnounce
+      split <;> exact hcl
+
 /-! ### the tasks a departure creates -/
 
 /-- tasks appended by the last stage before `sess.Close()`: the testaments (detached, then
